@@ -124,7 +124,7 @@ def sim_states(r):
 
 # ------------------------------------------------------------------ C14
 def c14_model(v, w, thorough, ids, scn_path):
-    mc = tlc("client", "MCClientData", cfg_with_mask("MCClientData.cfg", ids, w), w, workers=8, timeout=1700)
+    mc = tlc("client", "MCClientData", cfg_with_mask("MCClientData_rec_thorough.cfg" if thorough else "MCClientData.cfg", ids, w), w, workers=8, timeout=1700)
     v.add_model(mc)
     scns = scenarios_from(mc)
     runs = [mc]
@@ -237,10 +237,13 @@ def c14(v, w, thorough, replay):
                 key = "%s/levels=%d" % (bld, e["levels"])
                 reads_by[key] = reads_by.get(key, 0) + 1
         if not samples:
-            enc = [e for e in calls if e["ev"] == "Encrypt" and e["res"] == "ok"]
+            enc = [e for e in calls if e["ev"] == "Encrypt" and e["call"] == 1]
             fet = [e for e in calls if e["ev"] == "Fetch"]
-            samples = [{k: e[k] for k in ("ev", "len", "cls", "content", "max", "res", "n", "rootsz", "maxenc", "badaddr", "shape", "src")} for e in enc[-2:]] + \
-                      [{k: e[k] for k in ("ev", "len", "content", "api", "batch", "burst", "order", "picked", "res", "levels", "shape", "maxout", "src")} for e in fet[:1] + fet[-2:]]
+            pick = [x for x in ([e for e in enc if e["res"] == "err"][:1] + [e for e in enc if e["levels"] == 1 and e["len"] > 5][:1] +
+                                [e for e in enc if e["levels"] == 3][:1])]
+            samples = [{k: e[k] for k in ("ev", "len", "cls", "content", "max", "res", "n", "rootsz", "maxenc", "badaddr", "shape", "src")} for e in pick] + \
+                      [{k: e[k] for k in ("ev", "len", "content", "api", "batch", "burst", "order", "picked", "res", "levels", "shape", "maxout", "src")}
+                       for e in [x for x in fet if x["src"] == "tlc" and x["levels"] == 1][:1] + [x for x in fet if x["levels"] == 2][:1] + [x for x in fet if x["levels"] == 3][:1]]
         stats.append({"trace": os.path.basename(trace), **rep.get("stats", {})})
     v.cov["evaluations"] = nev
     v.cov["distinct_nontrivial"] = len(distinct)
